@@ -21,10 +21,15 @@ type c09Desc struct {
 	Exts    []string `json:"extensions"` // subExits | subIgnores | subNotPolling | subLatePoll | unsub | alreadyExited | launchFail | neverRegisters
 	Trigger string   `json:"trigger"`    // timeout | failure | explicit | shutdown
 	Allowed int64    `json:"allowed_ms"`
+	Reason  string   `json:"reset_reason,omitempty"` // explicit trigger: the reason the caller gives ("failure" / "timeout" as the standalone client does after a failed invocation)
 }
 
 func (d c09Desc) id() string {
-	return fmt.Sprintf("C09/%s/[%s]/%s/%d", d.Rt, strings.Join(d.Exts, ","), d.Trigger, d.Allowed)
+	id := fmt.Sprintf("C09/%s/[%s]/%s/%d", d.Rt, strings.Join(d.Exts, ","), d.Trigger, d.Allowed)
+	if d.Reason != "" {
+		id += "/reason-" + d.Reason
+	}
+	return id
 }
 
 func genC09(tier string, seed int64) []Case {
@@ -114,6 +119,27 @@ func genC09(tier string, seed int64) []Case {
 				es2 = []string{other, "launchFail"}
 			}
 			add(c09Desc{Rt: rt, Exts: es2, Trigger: "failure", Allowed: 2000})
+		}
+	}
+	// the reason given by the caller is the reason the extensions are told - also after a recorded crash
+	for _, reason := range []string{"failure", "timeout"} {
+		for _, rt := range []string{"alreadyExited", "exitsOnTerm"} {
+			for _, es := range [][]string{{"subExits"}, {"subIgnores", "unsub"}, {"alreadyExited", "subExits"}} {
+				add(c09Desc{Rt: rt, Exts: es, Trigger: "explicit", Allowed: 600, Reason: reason})
+			}
+		}
+	}
+	// an unsubscribed extension whose kill takes a while: nothing may be handed to its parked next meanwhile
+	for _, trg := range []struct {
+		t string
+		a int64
+	}{{"explicit", 600}, {"shutdown", 600}, {"timeout", 2000}, {"failure", 2000}} {
+		for _, es := range [][]string{{"unsubSlowKill"}, {"subExits", "unsubSlowKill"}, {"unsubSlowKill", "subIgnores"}} {
+			rt := "exitsOnTerm"
+			if trg.t == "failure" {
+				rt = "alreadyExited"
+			}
+			add(c09Desc{Rt: rt, Exts: es, Trigger: trg.t, Allowed: trg.a})
 		}
 	}
 	return cases
@@ -255,6 +281,12 @@ func runC09(c *Ctx, d c09Desc) {
 		case "unsub":
 			o.Events = []string{"INVOKE"}
 			o.OnEvent = func(p *vh.Proc, pt *vh.Party, n int, ev *vh.Resp) *vh.Exit { record(p, ev); return nil }
+		case "unsubSlowKill":
+			// like unsub, but the kill takes a while to take effect: whatever the platform hands to the
+			// parked next of this extension in the meantime is received and recorded
+			o.Events = []string{"INVOKE"}
+			o.OnEvent = func(p *vh.Proc, pt *vh.Party, n int, ev *vh.Resp) *vh.Exit { record(p, ev); return Stall(p) }
+			return vh.ExecPlan{Behave: w.ExtLoop(o), KillDelay: 25 * time.Millisecond}
 		case "alreadyExited":
 			o.OnEvent = func(p *vh.Proc, pt *vh.Party, n int, ev *vh.Resp) *vh.Exit {
 				record(p, ev)
@@ -309,7 +341,7 @@ func runC09(c *Ctx, d c09Desc) {
 	}
 	// every extension that is expected to be polling must be parked in next before the trigger
 	for i, k := range d.Exts {
-		if k == "subExits" || k == "subIgnores" || k == "unsub" || (k == "alreadyExited" && d.Trigger != "failure") || (k == "subNotPolling") || (k == "subLatePoll") || (k == "stuck") {
+		if k == "subExits" || k == "subIgnores" || k == "unsub" || k == "unsubSlowKill" || (k == "alreadyExited" && d.Trigger != "failure") || (k == "subNotPolling") || (k == "subLatePoll") || (k == "stuck") {
 			name := fmt.Sprintf("ext%d", i)
 			dl := time.Now().Add(5 * time.Second)
 			for time.Now().Before(dl) && w.E.ExtState(name) != "Ready" {
@@ -333,6 +365,9 @@ func runC09(c *Ctx, d c09Desc) {
 			time.Sleep(5 * time.Millisecond)
 		}
 		reason = "explicit-test"
+		if d.Reason != "" {
+			reason = d.Reason
+		}
 		trigSeq = mark()
 		tCall = time.Now()
 		w.E.Srv.Reset(reason, d.Allowed)
@@ -508,7 +543,7 @@ func runC09(c *Ctx, d c09Desc) {
 			if c.Check(len(aliveKills) == 1, "kill_at_deadline", fmt.Sprintf("%s/kill-count-%d", ec, len(aliveKills)), "subscribed, non-polling extension must be killed exactly once", nil) && D > 0 {
 				c.Check(tOf(aliveKills[0]) >= D-time.Millisecond, "kill_not_before_deadline", ec+"/killed-early", "subscribed extension killed before the deadline", nil)
 			}
-		case "unsub":
+		case "unsub", "unsubSlowKill":
 			c.Check(len(got) == 0, "no_event_if_unsubscribed", ec+"/event-although-unsubscribed", "extension not subscribed to SHUTDOWN received a SHUTDOWN event", nil)
 			c.Check(len(aliveKills) == 1, "unsubscribed_killed", fmt.Sprintf("%s/kill-count-%d", ec, len(aliveKills)), "unsubscribed extension must be killed exactly once", nil)
 		case "alreadyExited", "launchFail":
@@ -551,7 +586,11 @@ func runC09(c *Ctx, d c09Desc) {
 		}
 		c.Check(tRet <= D+2*time.Second+2500*time.Millisecond, "returns_in_time", "C09/late-return/"+d.Trigger, fmt.Sprintf("operation returned %.0f ms after the deadline", float64(tRet-D)/1e6), nil)
 	}
-	lifecycleOracle(c, w)
+	if d.Reason == "" {
+		// (a reset that claims a failed invocation while none is in flight produces a runtime-done record
+		// without a start: a caller-made history outside what the lifecycle oracle describes)
+		lifecycleOracle(c, w)
+	}
 	c.SetHooks(w.Hk.Arrived())
 	c.SetTrace(d.id()+NormTrace(evs, func(e vh.Event) bool { return e.Src == "sup" && (e.Kind == "term" || e.Kind == "kill") }), true)
 	if c.WantSample || c.Violated() {
